@@ -6,9 +6,6 @@ its `panic` site is unreachable (`Tak.apply_err`) and `analyze` never runs out o
 (`Roads.analyze_ne_none`). -/
 namespace Tak
 
-/-- the call returned a value or an error value (it did not panic) -/
-def NoPanic {α} (r : R α) : Prop := ∀ s, r ≠ .error (.panic s)
-
 /-- an error value -/
 def Err.ill (e : Err) : Prop := ∃ w, e = .illegal w
 
@@ -101,7 +98,7 @@ theorem apply_ill {basis : Array W} {p : Pos} {m : Move} {e : Err} (h : Pos.appl
           cases hw
         · exact finish_ne_error _ _ h
 
-theorem apply_noPanic (basis : Array W) (p : Pos) (m : Move) : NoPanic (Pos.apply basis p m) := by
+theorem apply_noPanic (basis : Array W) (p : Pos) (m : Move) : ∀ s, Pos.apply basis p m ≠ .error (.panic s) := by
   intro s h
   obtain ⟨w, hw⟩ := apply_ill h
   cases hw
